@@ -60,7 +60,9 @@ CanonOK(e) ==
      /\ ObsRet(e.vret) \in ValidateRets(e.pre)
 \* the error filter: nil exactly for nil, missing-optional and not-in-profile errors; any other
 \* error comes back unchanged (the identical value)
-FilterOK(e) == e.out = (IF Filtered(e.isNil, SeqToSet(e.cls)) THEN "nil" ELSE "same")
+\* (the class set is computed twice: by errors.Is on the real value, and by the specification's model of Go error chains)
+FilterOK(e) == /\ SeqToSet(e.cls) = ChainClasses(e.chain)
+               /\ e.out = (IF Filtered(e.isNil, ChainClasses(e.chain)) THEN "nil" ELSE "same")
 \* overwriting the input buffer after decoding changes nothing
 ScribbleOK(e) == e.post = e.pre /\ e.same /\ e.encSame
 \* the exported per-claim validators
